@@ -64,6 +64,8 @@ def node_of(c):
 
 
 def child(c, tag):
+    if c is None:
+        return None
     for x in c[4]:
         if x[0] == tag:
             return x
@@ -71,7 +73,7 @@ def child(c, tag):
 
 
 def children(c, tag):
-    return [x for x in c[4] if x[0] == tag]
+    return [x for x in c[4] if x[0] == tag] if c is not None else []
 
 
 def child_text(c, tag):
